@@ -85,20 +85,21 @@ Account(it) == /\ step' = step + 1
                /\ mono' = (mono /\ (step = 0 \/ Prio(it) <= lastPrio))
                /\ lastPrio' = Prio(it)
                /\ UNCHANGED <<tag, dep, bt, bd, status>>
-PopGoal == /\ Running
-           /\ \E it \in Pick : /\ it.fin
-                               /\ goal' = Append(goal, it) /\ agenda' = agenda \ {it} /\ UNCHANGED stored
-                               /\ Account(it)
-PopDrop == /\ Running
-           /\ \E it \in Pick : /\ ~it.fin /\ KBestN = 1 /\ \E j \in DOMAIN stored : SameCell(stored[j], it)
-                               /\ agenda' = agenda \ {it} /\ UNCHANGED <<stored, goal>>
-                               /\ Account(it)
-PopStore == /\ Running
-            /\ \E it \in Pick : /\ ~it.fin /\ ~(KBestN = 1 /\ \E j \in DOMAIN stored : SameCell(stored[j], it))
-                                /\ stored' = Append(stored, it)
-                                /\ agenda' = (agenda \ {it}) \cup NewItems(it, Len(stored) + 1)
-                                /\ UNCHANGED goal
-                                /\ Account(it)
+(* one loop iteration for a given agenda item *)
+PopGoalIt(it) == /\ it.fin
+                 /\ goal' = Append(goal, it) /\ agenda' = agenda \ {it} /\ UNCHANGED stored
+                 /\ Account(it)
+PopDropIt(it) == /\ ~it.fin /\ KBestN = 1 /\ \E j \in DOMAIN stored : SameCell(stored[j], it)
+                 /\ agenda' = agenda \ {it} /\ UNCHANGED <<stored, goal>>
+                 /\ Account(it)
+PopStoreIt(it) == /\ ~it.fin /\ ~(KBestN = 1 /\ \E j \in DOMAIN stored : SameCell(stored[j], it))
+                  /\ stored' = Append(stored, it)
+                  /\ agenda' = (agenda \ {it}) \cup NewItems(it, Len(stored) + 1)
+                  /\ UNCHANGED goal
+                  /\ Account(it)
+PopGoal  == Running /\ \E it \in Pick : PopGoalIt(it)
+PopDrop  == Running /\ \E it \in Pick : PopDropIt(it)
+PopStore == Running /\ \E it \in Pick : PopStoreIt(it)
 Finish == /\ status = "run" /\ ~Running
           /\ status' = IF Len(goal) = 0 THEN "failed" ELSE "done"
           /\ goal' = SortSeq(goal, LAMBDA a, b : Prio(a) > Prio(b))
